@@ -527,6 +527,17 @@ def _call_target(classes, c):
     return None
 
 
+def _must_call(ctx, classes, fn, targets, _depth=0):
+    """does every normal path through ``fn`` pass a call of one of ``targets`` (dotted texts), directly or through a self.<m>() whose every path does?"""
+    if fn is None or _depth > 3:
+        return False
+    g = ctx.cfg(fn, swallowing=lambda e: "failuresHandled" in src(e))
+    hits = [n for n, c in named_calls(g, *targets)]
+    hits += [n for n, c in call_sites(g, lambda c: _call_target(classes, c) is not None and _call_target(classes, c) is not fn and
+                                      _must_call(ctx, classes, _call_target(classes, c), targets, _depth + 1))]
+    return bool(hits) and g.must_pass([g.entry], hits, exc=False) is None
+
+
 def _closure_uses(classes, roots, seen=None):
     """(loads, stores) over the self.<m>() call closure of the given function nodes (methods resolved along ``classes``, first wins; <Base>.<m>(self) calls too)"""
     seen = set() if seen is None else seen
@@ -684,12 +695,41 @@ def _check_protocol(ctx, mod):
     ret_fr = [r for r in rets if src(g.node(r).ast.value) == "self._finishedRequest"]
     ctx.check(len(ret_fr) == 1, "protocol/errors-fail-request", q + " | returns the request Deferred", "request() does not return self._finishedRequest")
     # parser is given the finisher, and its response Deferred is remembered
-    mk = [c for c in ast.walk(f) if isinstance(c, ast.Call) and call_attr(c) == "HTTPClientParser"]
-    ctx.check(len(mk) == 1 and len(mk[0].args) == 2 and src(mk[0].args[1]) == "self._finishResponse", "protocol/parser-wiring", q,
-              "the parser is not created with self._finishResponse as its finisher")
-    rd = [st for n, st in assign_sites(g, lambda x: is_self_attr(x, "_responseDeferred"))]
-    ctx.check(len(rd) == 1 and src(rd[0].value) == "self._parser._responseDeferred", "protocol/parser-wiring", q + " | _responseDeferred",
-              "the protocol does not remember the parser's response Deferred")
+    # (looked for in request() and in every method request() reaches through self.<m>() calls: the wiring may live in an extracted helper)
+    pcls = [mod.find(C)]
+    reach, todo = [], [f]
+    while todo:
+        fn = todo.pop()
+        if any(fn is r for r in reach):
+            continue
+        reach.append(fn)
+        todo += [t for t in (_call_target(pcls, c) for c in walk_local(fn)) if t is not None]
+    sites = [(fn, c) for fn in reach for c in ast.walk(fn) if isinstance(c, ast.Call) and call_attr(c) == "HTTPClientParser"]
+    if len(sites) != 1:
+        ctx.note(f"protocol/parser-wiring: {len(sites)} HTTPClientParser(...) sites reachable from request(): shape not recognised, clause left to client/evaluated-histories (bounded)")
+    else:
+        wfn, mkc = sites[0]
+        wq = Q + wfn.name
+        ctx.check(len(mkc.args) == 2 and src(mkc.args[1]) == "self._finishResponse", "protocol/parser-wiring", q,
+                  f"the parser is created with `{src(mkc.args[1]) if len(mkc.args) > 1 else '<nothing>'}` as its finisher, not with self._finishResponse")
+        # names under which the new parser is known in that function: the target(s) of the construction, and what is copied from / to them
+        alias = set()
+        for st in walk_local(wfn):
+            if isinstance(st, ast.Assign) and st.value is mkc:
+                alias |= {src(t) for t in st.targets}
+        for _ in range(3):
+            for st in walk_local(wfn):
+                if isinstance(st, ast.Assign) and src(st.value) in alias:
+                    alias |= {src(t) for t in st.targets}
+        rd = [st for fn in reach for st in walk_local(fn) if isinstance(st, ast.Assign) and any(is_self_attr(t, "_responseDeferred") for t in st.targets) and not
+              (isinstance(st.value, ast.Constant) and st.value.value is None)]
+        if len(rd) != 1 or not any(rd[0] is st for st in walk_local(wfn)):
+            ctx.note(f"protocol/parser-wiring: {len(rd)} assignments of self._responseDeferred reachable from request(): shape not recognised, clause left to client/evaluated-histories (bounded)")
+        else:
+            v = rd[0].value
+            ok = isinstance(v, ast.Attribute) and v.attr == "_responseDeferred" and src(v.value) in alias
+            ctx.check(ok, "protocol/parser-wiring", q + " | _responseDeferred",
+                      f"the protocol remembers `{src(v)}` as the response Deferred, which is not the new parser's ({sorted(alias)})")
 
     # dataReceived: any exception from the parser gives up the connection and fails the request
     f = ctx.func(P, C + ".dataReceived")
@@ -802,6 +842,8 @@ def _check_protocol(ctx, mod):
         q = Q + "_finishResponse_WAITING"
         ctx.functions.add(f"{P}:{C}._finishResponse_WAITING")
         via = [n for n, c in named_calls(g, "self._giveUp", "self._disconnectParser")]
+        # ... or a call of a method of the class that itself passes such a call on every normal path (the hand-back may live in an extracted helper)
+        via += [n for n, c in call_sites(g, lambda c: _call_target([cls], c) is not None and _must_call(ctx, [cls], _call_target([cls], c), ("self._giveUp", "self._disconnectParser")))]
         early = [r for r in g.ids(lambda x: x.kind == "stmt" and isinstance(x.ast, ast.Return)) if none_guard(g, r, "self._parser", True)]
         w = g.must_pass([g.entry], set(via) | set(early), exc=False)
         ctx.check(bool(via) and w is None, "protocol/finish-disconnects", q,
